@@ -275,6 +275,46 @@ theorem lower_one_exact (fs : Bool) (fuel : Nat) (m m' : Map) (e : Int) (x1 y1 x
   intro k
   rw [setElevation_lower_one fs fuel m m' e x1 y1 x2 y2 hwf hx hx2 hy hy2 hns hm h, fill_spec]
 
+/-- **setElevation_eq_pyramid_lower_one**: the unproved equation `operational = closed form` holds in full when a
+rectangle of more than one tile is lowered by one level on a flat map - any size, base, rectangle on the map, any
+fuel with which the model returns, pinned and repaired code -/
+theorem setElevation_eq_pyramid_lower_one (fs : Bool) (fuel : Nat) (s : Nat) (b : Int) (x1 y1 x2 y2 : Nat) (m' : Map)
+    (hx : x1 ≤ x2) (hx2 : x2 < s) (hy : y1 ≤ y2) (hy2 : y2 < s) (hns : ¬ (x1 = x2 ∧ y1 = y2))
+    (h : setElevation fs fuel (flat s b) (b - 1) x1 y1 (some (x2 : Int)) (some (y2 : Int)) = .ok m') :
+    m'.tiles.map (·.elevation) = pyramid s b (b - 1) x1 y1 x2 y2 := by
+  have hwf : WF (flat s b) := wf_resetIndices s _ (by simp)
+  have hlen : (flat s b).tiles.length = s * s := by simp [flat, resetIndices]
+  have hex := lower_one_exact fs fuel (flat s b) m' (b - 1) x1 y1 x2 y2 hwf hx hx2 hy hy2 hns
+    (fun k t ht => by rw [flat_elev s b k t ht]; omega) h
+  have hsz : (flat s b).size = s := rfl
+  rw [hsz] at hex
+  apply List.ext_getElem?
+  intro k
+  rw [List.getElem?_map, hex k]
+  by_cases hk : k < s * s
+  · have hk' : k < (flat s b).tiles.length := by omega
+    have hel := flat_elev s b k _ (List.getElem?_eq_getElem hk')
+    have hs : 0 < s := by omega
+    simp only [pyramid, List.getElem?_map, List.getElem?_range hk, Option.map_some, List.getElem?_eq_getElem hk']
+    split
+    · next hmem =>
+      obtain ⟨x, y, h1, h2, h3, h4, rfl⟩ := (mem_rectRows _ _ _ _ _ _).mp hmem
+      have hxs : x < s := by omega
+      simp only [Option.map_some, Tile.withElev]
+      rw [Nat.add_mul_mod_self_right, Nat.mod_eq_of_lt hxs, Nat.add_mul_div_right _ _ hs, Nat.div_eq_of_lt hxs,
+        Nat.zero_add, pyramid_rect (b) (b - 1) x1 y1 x2 y2 x y (by omega) (by omega) (by omega) (by omega)]
+    · next hmem =>
+      have hnot : ¬ (x1 ≤ k % s ∧ k % s ≤ x2 ∧ y1 ≤ k / s ∧ k / s ≤ y2) := fun hh =>
+        hmem ((mem_rectRows _ _ _ _ _ _).mpr ⟨k % s, k / s, hh.1, hh.2.1, hh.2.2.1, hh.2.2.2,
+          by rw [Nat.mul_comm]; exact (Nat.mod_add_div k s).symm⟩)
+      simp only [Option.map_some, hel]
+      congr 1
+      unfold pyramidAt cheb
+      split <;> omega
+  · have hn : (flat s b).tiles[k]? = none := List.getElem?_eq_none (by omega)
+    rw [hn, List.getElem?_eq_none (by simp [pyramid]; omega)]
+    split <;> rfl
+
 /-- non-vacuity: a flat 4×4 map of elevation 3 lowered to 2 on the rectangle (1,1)-(2,2); the call returns and the
 result is the closed form -/
 example : (setElevation false (elevFuel (flat 4 3)) (flat 4 3) 2 1 1 (some 2) (some 2)).map
